@@ -6,7 +6,7 @@ Extraction "model.ml" run_inner run_inner_state guard_menu parse_menu map_menu a
   utf8_decode utf8_encode invariant_ok meta_of short_tables initial_state
   render_console program_name render_zsh render_bash render_fish render_simple arg_matches cmd_matches complete
   render_help info_meta
-  collect_html manpage_doc render_html render_roff manpage_th
+  collect_html manpage_doc render_html render_markdown render_roff manpage_th
   denote compile_options flat_okb chain_okb tree_okb plain_cmds oko
   derive_field to_kebab_case unit_variant_names command_name group_help_of
   eval outcome_of render_message_text render_doc_text utf8_valid arg_os.
